@@ -1,5 +1,5 @@
 (* C15 — proofs about model/Route.v *)
-From Coq Require Import Permutation.
+From Coq Require Import Permutation Sorted.
 From Vx Require Import base.Prelude base.ListX model.Route.
 Local Open Scope Z_scope.
 
@@ -1066,3 +1066,894 @@ Qed.
 
 Lemma sort_tree_NoDup t : NoDup (ids t) -> NoDup (ids (sort_tree t)).
 Proof. intros N. eapply Permutation_NoDup; [apply Permutation_sym, sort_tree_ids|exact N]. Qed.
+
+(* ---------------------------------------------------------------- hover_balanced *)
+
+Definition hover_of_calls (w : wid) (l : list call3) : list event :=
+  map (fun c => snd (fst c)) (filter (fun c : call3 => (fst (fst c) =? w) && is_hover_ev (snd (fst c))) l).
+
+Definition wmem (w : wid) (hs : list hit) : bool := existsb (Z.eqb w) (map h_wid hs).
+
+Lemma hover_state_app l1 : forall b l2,
+  hover_state b (l1 ++ l2) = match hover_state b l1 with Some b' => hover_state b' l2 | None => None end.
+Proof.
+  induction l1 as [|e l1 IH]; intros b l2; [reflexivity|].
+  destruct e; cbn [app hover_state]; try apply IH; destruct b; auto.
+Qed.
+
+Lemma hover_log_app w a b : hover_log w (a ++ b) = hover_log w a ++ hover_log w b.
+Proof. unfold hover_log. now rewrite filter_app, map_app. Qed.
+
+Lemma focus_entry_not_hover x : focus_entry x = true -> is_hover_ev (e_ev x) = false.
+Proof. unfold focus_entry. destruct (e_ev x); cbn; auto; discriminate. Qed.
+
+Lemma hover_log_focus w D : all_focus D -> hover_log w D = [].
+Proof.
+  induction 1 as [|x D Hx _ IH]; [reflexivity|].
+  unfold hover_log in *. cbn [filter]. rewrite (focus_entry_not_hover _ Hx), andb_false_r. exact IH.
+Qed.
+
+Lemma seg_hover w l D : seg l D -> hover_log w D = hover_of_calls w l.
+Proof.
+  induction 1 as [|w0 ev ph r nested l D F _ IH]; [reflexivity|].
+  change ((w0, ev, ph, r) :: nested ++ D) with ([(w0, ev, ph, r)] ++ nested ++ D).
+  rewrite !hover_log_app, (hover_log_focus _ _ F), IH. unfold hover_log, hover_of_calls.
+  cbn [filter map e_wid e_ev fst snd app]. destruct ((w0 =? w) && is_hover_ev ev); reflexivity.
+Qed.
+
+Lemma routedI_hover w l D b :
+  routedI l D b -> Forall (fun c : call3 => is_hover_ev (snd (fst c)) = false) l -> hover_log w D = [].
+Proof.
+  induction 1 as [|w0 ev ph r nested l F _|w0 ev ph r nested l D b F _ _ IH]; intros Hl; [reflexivity| |];
+    inversion Hl as [|? ? Hev Hl']; subst; cbn [fst snd] in Hev.
+  - change ((w0, ev, ph, r) :: nested) with ([(w0, ev, ph, r)] ++ nested).
+    rewrite hover_log_app, (hover_log_focus _ _ F). unfold hover_log. cbn. now rewrite Hev, andb_false_r.
+  - change ((w0, ev, ph, r) :: nested ++ D) with ([(w0, ev, ph, r)] ++ nested ++ D).
+    rewrite !hover_log_app, (hover_log_focus _ _ F), (IH Hl'). unfold hover_log. cbn. now rewrite Hev, andb_false_r.
+Qed.
+
+Lemma hit_eqb_eq a b : hit_eqb a b = true <-> a = b.
+Proof.
+  destruct a as [[a1 a2] a3], b as [[b1 b2] b3]. unfold hit_eqb. cbn.
+  rewrite !andb_true_iff, !Z.eqb_eq. split; [intros [[-> ->] ->]; reflexivity|intros H; injection H; auto].
+Qed.
+
+Lemma hit_mem_In h l : hit_mem h l = true <-> In h l.
+Proof.
+  unfold hit_mem. rewrite existsb_exists. split.
+  - intros (x & Hin & E). apply hit_eqb_eq in E. subst. exact Hin.
+  - intros Hin. exists h. split; [exact Hin|]. now apply hit_eqb_eq.
+Qed.
+
+Definition find_w (w : wid) (hs : list hit) : list hit := filter (fun h => h_wid h =? w) hs.
+
+Lemma wmem_false_find w hs : wmem w hs = false -> find_w w hs = [].
+Proof.
+  unfold wmem, find_w. induction hs as [|h hs IH]; [reflexivity|]. cbn.
+  intros E. apply orb_false_iff in E as [E1 E2]. rewrite Z.eqb_sym, E1. auto.
+Qed.
+
+Lemma find_w_cons w h hs : find_w w (h :: hs) = if h_wid h =? w then h :: find_w w hs else find_w w hs.
+Proof. reflexivity. Qed.
+Lemma wmem_cons w h hs : wmem w (h :: hs) = (w =? h_wid h) || wmem w hs.
+Proof. reflexivity. Qed.
+
+Lemma find_w_nodup w hs :
+  NoDup (map h_wid hs) ->
+  (find_w w hs = [] /\ wmem w hs = false) \/
+  (exists h, find_w w hs = [h] /\ h_wid h = w /\ In h hs /\ wmem w hs = true).
+Proof.
+  induction hs as [|h hs IH]; intros N; [left; auto|].
+  inversion N as [|? ? Hnin N']; subst. rewrite find_w_cons, wmem_cons.
+  destruct (h_wid h =? w) eqn:E.
+  - right. exists h. apply Z.eqb_eq in E.
+    assert (wmem w hs = false) as Hm.
+    { unfold wmem. destruct (existsb (Z.eqb w) (map h_wid hs)) eqn:Em; [|reflexivity].
+      apply existsb_exists in Em as (x & Hin & Ex). apply Z.eqb_eq in Ex. subst. contradiction. }
+    rewrite (wmem_false_find _ _ Hm). subst w. rewrite Z.eqb_refl. repeat split; auto. left; reflexivity.
+  - rewrite Z.eqb_sym, E. cbn [orb].
+    destruct (IH N') as [[A B]|(h' & A & B & C & D)]; [left; auto|right].
+    exists h'. repeat split; auto. right; exact C.
+Qed.
+
+Lemma hover_of_calls_app w a b : hover_of_calls w (a ++ b) = hover_of_calls w a ++ hover_of_calls w b.
+Proof. unfold hover_of_calls. now rewrite filter_app, map_app. Qed.
+
+Lemma hover_of_calls_map w ev (Hev : is_hover_ev ev = true) (P : hit -> bool) hs :
+  hover_of_calls w (map (fun h => (h_wid h, ev, Target)) (filter P hs)) =
+  map (fun _ => ev) (filter P (find_w w hs)).
+Proof.
+  unfold hover_of_calls, find_w. induction hs as [|h hs IH]; [reflexivity|]. cbn [filter].
+  destruct (P h) eqn:EP; cbn [map filter fst snd]; rewrite ?Hev, ?andb_true_r;
+    destruct (h_wid h =? w); cbn [map filter]; rewrite ?EP; cbn [map]; rewrite ?IH; reflexivity.
+Qed.
+
+(* the heart of hover_balanced: one update moves every widget from "hovered iff in the old
+   hit list" to "hovered iff in the new hit list" with alternating notifications *)
+Lemma hover_calls_state w old new :
+  NoDup (map h_wid old) -> NoDup (map h_wid new) ->
+  hover_state (wmem w old) (hover_of_calls w (hover_calls old new)) = Some (wmem w new).
+Proof.
+  intros No Nn. unfold hover_calls.
+  rewrite hover_of_calls_app, !hover_of_calls_map by reflexivity.
+  destruct (find_w_nodup w old No) as [[Fo Mo]|(h & Fo & Wo & Io & Mo)];
+  destruct (find_w_nodup w new Nn) as [[Fn Mn]|(h' & Fn & Wn & In' & Mn)];
+    rewrite Fo, Fn, Mo, Mn; cbn [filter map app].
+  - reflexivity.
+  - assert (E : hit_mem h' old = false).
+    { destruct (hit_mem h' old) eqn:E; [|reflexivity]. apply hit_mem_In in E.
+      assert (In h' (find_w w old)) by (apply filter_In; split; [exact E|lia]). rewrite Fo in H. destruct H. }
+    rewrite E. reflexivity.
+  - assert (E : hit_mem h new = false).
+    { destruct (hit_mem h new) eqn:E; [|reflexivity]. apply hit_mem_In in E.
+      assert (In h (find_w w new)) by (apply filter_In; split; [exact E|lia]). rewrite Fn in H. destruct H. }
+    rewrite E. reflexivity.
+  - destruct (hit_mem h new) eqn:E1.
+    + apply hit_mem_In in E1.
+      assert (In h (find_w w new)) as Hin by (apply filter_In; split; [exact E1|lia]).
+      rewrite Fn in Hin. destruct Hin as [<-|[]].
+      assert (hit_mem h' old = true) as -> by (apply hit_mem_In; exact Io). reflexivity.
+    + destruct (hit_mem h' old) eqn:E2.
+      * apply hit_mem_In in E2.
+        assert (In h' (find_w w old)) as Hin by (apply filter_In; split; [exact E2|lia]).
+        rewrite Fo in Hin. destruct Hin as [<-|[]].
+        apply hit_mem_In in In'. congruence.
+      * reflexivity.
+Qed.
+
+(* mouseExit: everybody in the hit list gets MouseLeave *)
+Lemma hover_exit_state w old :
+  NoDup (map h_wid old) ->
+  hover_state (wmem w old) (hover_of_calls w (map (fun h => (h_wid h, ELeave, Target)) old)) = Some false.
+Proof.
+  intros No. pose proof (hover_calls_state w old [] No (NoDup_nil _)) as H.
+  unfold hover_calls in H. cbn [filter map app] in H. rewrite app_nil_r in H.
+  assert (E : filter (fun h => negb (hit_mem h [])) old = old).
+  { clear. induction old as [|a old IH]; [reflexivity|]. cbn [filter].
+    change (hit_mem a []) with false. cbn [negb]. now rewrite IH. }
+  rewrite E in H. exact H.
+Qed.
+
+Lemma focus_widget_ext fuel c w c' :
+  focus_widget fuel c w = Some c' ->
+  exists D e, ext c c' D e /\ all_focus D /\ Permutation e (rets D).
+Proof.
+  unfold Route.focus_widget. destruct (focused c =? w).
+  - intros H; injection H as <-. exists [], []. split; [apply ext_refl|]. split; constructor.
+  - intros H. destruct (call fuel c (focused c) EFocusOut Target) as [c1|] eqn:E1; [|discriminate].
+    cbn [obind] in H.
+    destruct (call_ext _ _ _ _ _ _ E1) as (d1 & e1 & X1 & F1 & P1).
+    destruct (call_ext _ _ _ _ _ _ H) as (d2 & e2 & X2 & F2 & P2).
+    cbn [log set_focused] in *.
+    pose proof (ext_trans _ _ _ _ _ _ _ X1 (ext_trans _ _ _ _ _ _ _ (ext_set_focused c1 w) X2)) as Y.
+    eexists _, _. split; [exact Y|]. split.
+    + apply Forall_app; split; constructor; auto.
+    + rewrite !rets_app. change (rets []) with (@nil cmd). cbn [app]. apply Permutation_app; assumption.
+Qed.
+
+Lemma update_path_shape fuel s t s' :
+  update_path oracle fuel s t = Some s' ->
+  exists D, log (co s') = log (co s) ++ D /\ all_focus D /\ root s' = root s /\
+            last_frame s' = last_frame s /\ last_hits s' = last_hits s /\ mouse s' = mouse s.
+Proof.
+  unfold update_path. destruct (child_has_focus t (focused (co s))).
+  - intros H; injection H as <-. exists []. cbn. rewrite app_nil_r. repeat split; constructor.
+  - intros H. destruct (focus_widget fuel (co s) (root s)) as [c|] eqn:E; [|discriminate].
+    cbn [obind] in H. injection H as <-.
+    destruct (focus_widget_ext _ _ _ _ E) as (D & e & [(L & _) _] & F & _).
+    exists D. cbn. auto 10.
+Qed.
+
+Lemma mouse_exit_spec fuel s s' :
+  mouse_exit oracle fuel s = Some s' ->
+  exists D, log (co s') = log (co s) ++ D /\
+            seg (map (fun h => (h_wid h, ELeave, Target)) (last_hits s)) D /\ last_hits s' = [] /\
+            root s' = root s /\ last_frame s' = last_frame s /\ mouse s' = mouse s.
+Proof.
+  unfold mouse_exit. intros H.
+  match type of H with obind (Route.calls _ _ _ ?l) _ = _ => destruct (calls fuel (co s) l) as [c|] eqn:E; [|discriminate] end.
+  cbn [obind] in H. injection H as <-.
+  destruct (calls_ext _ _ _ _ E) as (D & e & [(L & _) _] & S & _).
+  exists D. cbn. auto 10.
+Qed.
+
+Section Hover.
+  Variable excl : wid -> Prop.   (* widgets the statement does not speak about *)
+  Variable r : wid.              (* the App's root widget *)
+
+  Definition hov_inv (s : st) : Prop :=
+    root s = r /\ NoDup (ids (last_frame s)) /\ NoDup (map h_wid (last_hits s)) /\
+    forall w, ~ excl w -> hover_state false (hover_log w (log (co s))) = Some (wmem w (last_hits s)).
+
+  Definition hov_good (i : input) : Prop :=
+    match tree_of_input i with Some t => NoDup (ids t) | None => True end /\
+    match i with IEv e => is_hover_ev e = false | ITermFocusIn => excl r | _ => True end.
+
+  Lemma hov_upd s s' D :
+    hov_inv s -> log (co s') = log (co s) ++ D ->
+    (forall w, ~ excl w -> hover_state (wmem w (last_hits s)) (hover_log w D) = Some (wmem w (last_hits s'))) ->
+    NoDup (ids (last_frame s')) -> NoDup (map h_wid (last_hits s')) -> root s' = r -> hov_inv s'.
+  Proof.
+    intros (R & Nf & Nh & H) L Hd Nf' Nh' R'. split; [exact R'|]. split; [exact Nf'|]. split; [exact Nh'|].
+    intros w Hw. rewrite L, hover_log_app, hover_state_app, (H w Hw). apply Hd. exact Hw.
+  Qed.
+
+  (* a step that neither notifies nor changes the hit list *)
+  Lemma hov_quiet s s' D :
+    hov_inv s -> log (co s') = log (co s) ++ D -> (forall w, hover_log w D = []) ->
+    NoDup (ids (last_frame s')) -> last_hits s' = last_hits s -> root s' = r -> hov_inv s'.
+  Proof.
+    intros J L Hq Nf' Hh R'. eapply hov_upd; eauto.
+    - intros w _. rewrite Hq, Hh. reflexivity.
+    - rewrite Hh. apply J.
+  Qed.
+
+  Lemma hov_mouse_update fuel s t s' :
+    hov_inv s -> NoDup (ids t) -> mouse_update oracle fuel s t = Some s' -> hov_inv s'.
+  Proof.
+    intros J Nt H. pose proof (mouse_update_spec _ _ _ _ H) as U.
+    destruct (mouse s) as [m|]; [|subst; exact J].
+    destruct U as (D & e & [(L & _) _] & S & _ & Lh & Rh & _ & Fr & _).
+    destruct J as (R & Nf & Nh & Hv).
+    eapply hov_upd; [repeat split; eauto|exact L| | | |congruence].
+    - intros w _. rewrite (seg_hover _ _ _ S), Lh. apply hover_calls_state; [exact Nh|].
+      apply hits_at_NoDup. exact Nt.
+    - rewrite Fr. exact Nf.
+    - rewrite Lh. apply hits_at_NoDup. exact Nt.
+  Qed.
+
+  Lemma hov_mouse_exit fuel s s' :
+    hov_inv s -> mouse_exit oracle fuel s = Some s' -> hov_inv s' /\ last_hits s' = [].
+  Proof.
+    intros J H. destruct (mouse_exit_spec _ _ _ H) as (D & L & S & Lh & Rh & Fr & _).
+    split; [|exact Lh]. destruct J as (R & Nf & Nh & Hv).
+    eapply hov_upd; [repeat split; eauto|exact L| | | |congruence].
+    - intros w _. rewrite (seg_hover _ _ _ S), Lh. apply hover_exit_state. exact Nh.
+    - rewrite Fr. exact Nf.
+    - rewrite Lh. constructor.
+  Qed.
+
+  Lemma hov_update_path fuel s t s' :
+    hov_inv s -> update_path oracle fuel s t = Some s' -> hov_inv s'.
+  Proof.
+    intros J H. destruct (update_path_shape _ _ _ _ H) as (D & L & F & Rh & Fr & Lh & _).
+    eapply hov_quiet; eauto.
+    - intros w. apply hover_log_focus. exact F.
+    - rewrite Fr. apply J.
+    - rewrite Rh. apply J.
+  Qed.
+
+  Lemma hov_frame_set s t : hov_inv s -> NoDup (ids t) -> hov_inv (with_frame s t).
+  Proof. intros (R & _ & Nh & H) Nt. repeat split; auto. Qed.
+
+  Lemma hov_co_flags s c :
+    hov_inv s -> log c = log (co s) -> hov_inv (with_co s c).
+  Proof. intros (R & Nf & Nh & H) L. repeat split; auto. cbn. rewrite L. exact H. Qed.
+
+  Lemma seq_calls_not_hover ev seq :
+    is_hover_ev ev = false -> Forall (fun c : call3 => is_hover_ev (snd (fst c)) = false) (seq_calls ev seq).
+  Proof. intros H. unfold seq_calls. induction seq; cbn; constructor; auto. Qed.
+
+  Lemma hov_focus_handle fuel s ev s' :
+    hov_inv s -> is_hover_ev ev = false -> focus_handle oracle capturer fuel s ev = Some s' -> hov_inv s'.
+  Proof.
+    intros J Hev H.
+    destruct (key_route_order _ _ _ _ H) as (D & e & tgt & b & (L & _) & _ & (Rh & _ & Fr & Lh & _) & _ & RI & _).
+    eapply hov_quiet; eauto.
+    - intros w. eapply routedI_hover; [exact RI|]. apply seq_calls_not_hover. exact Hev.
+    - rewrite Fr. apply J.
+    - rewrite Rh. apply J.
+  Qed.
+
+  Lemma hov_step fuel s i s' :
+    hov_inv s -> hov_good i -> step oracle capturer fuel s i = Some s' -> hov_inv s'.
+  Proof.
+    intros J [Gt Gi] H. destruct i; cbn [step] in H; cbn [tree_of_input] in Gt.
+    - eapply hov_focus_handle; eauto.
+    - (* mouse *)
+      destruct (mouse_route_order _ _ _ _ _ H) as (Dh & Dr & e & b & (L & _) & _ & S & Lh & _ & Rh & _ & Fr & M).
+      destruct J as (R & Nf & Nh & Hv).
+      eapply hov_upd; [repeat split; eauto|exact L| | | |congruence].
+      + intros w _. rewrite hover_log_app, hover_state_app, (seg_hover _ _ _ S), Lh.
+        rewrite hover_calls_state by (auto; apply hits_at_NoDup; exact Nf).
+        assert (hover_log w Dr = []) as ->; [|reflexivity].
+        destruct (map h_wid (hits_at (last_frame s) (col, row))); [subst; reflexivity|].
+        destruct M as [RI _]. eapply routedI_hover; [exact RI|]. apply seq_calls_not_hover. reflexivity.
+      + rewrite Fr. exact Nf.
+      + rewrite Lh. apply hits_at_NoDup. exact Nf.
+    - (* terminal FocusIn: MouseEnter to the root widget *)
+      destruct (call fuel (co s) (root s) EEnter Target) as [c|] eqn:E; [|discriminate].
+      cbn [obind] in H. injection H as <-.
+      destruct (call_ext _ _ _ _ _ _ E) as (d & e & [(L & _) _] & F & _).
+      destruct J as (R & Nf & Nh & Hv).
+      eapply hov_upd; [repeat split; eauto|exact L| |exact Nf|exact Nh|exact R].
+      intros w Hw. cbn [last_hits with_co].
+      match goal with |- context [hover_log w (?x :: d)] => change (x :: d) with ([x] ++ d) end.
+      rewrite hover_log_app, (hover_log_focus _ _ F), app_nil_r. unfold hover_log. cbn [filter e_wid e_ev fst snd].
+      assert ((root s =? w) = false) as ->; [|reflexivity].
+      apply Z.eqb_neq. intros E'. apply Hw. rewrite <- E', R. exact Gi.
+    - (* terminal FocusOut *)
+      eapply hov_mouse_exit; [|exact H]. destruct J as (R & Nf & Nh & Hv). repeat split; auto.
+    - injection H as <-. apply hov_co_flags; auto.
+    - (* frame *)
+      unfold frame in H. destruct (negb (f_redraw (co s))); [injection H as <-; exact J|].
+      destruct (mouse_update oracle fuel (with_co s (set_redraw (co s) false)) t) as [s1|] eqn:E1; [|discriminate].
+      cbn [obind] in H.
+      match type of H with obind (update_path _ _ ?s2 _) _ = _ => destruct (update_path oracle fuel s2 (sort_tree t)) as [s3|] eqn:E3; [|discriminate] end.
+      cbn [obind] in H. injection H as <-.
+      apply hov_frame_set; [|apply sort_tree_NoDup; exact Gt].
+      eapply hov_update_path; [|exact E3]. apply hov_co_flags; [|reflexivity].
+      eapply hov_mouse_update; [|exact Gt|exact E1]. apply hov_co_flags; auto.
+    - (* start *)
+      destruct (focus_handle oracle capturer fuel s EInit) as [s1|] eqn:E; [|discriminate].
+      cbn [obind] in H. injection H as <-. apply hov_frame_set; [|exact Gt].
+      eapply hov_focus_handle; [exact J| |exact E]. reflexivity.
+    - eapply hov_mouse_update; eauto.
+    - eapply hov_update_path; eauto.
+    - injection H as <-. apply hov_frame_set; auto.
+    - destruct (update_path oracle fuel s (sort_tree t)) as [s1|] eqn:E; [|discriminate].
+      cbn [obind] in H. injection H as <-. apply hov_frame_set; [|apply sort_tree_NoDup; exact Gt].
+      eapply hov_update_path; eauto.
+    - eapply hov_mouse_exit; eauto.
+    - injection H as <-. destruct J as (R & Nf & Nh & Hv). repeat split; auto.
+    - destruct (focus_widget fuel (co s) w) as [c|] eqn:E; [|discriminate].
+      cbn [obind] in H. injection H as <-.
+      destruct (focus_widget_ext _ _ _ _ E) as (D & e & [(L & _) _] & F & _).
+      eapply hov_quiet; eauto; try apply J. intros w0. apply hover_log_focus. exact F.
+    - destruct (handle_cmd fuel (co s) c) as [c'|] eqn:E; [|discriminate].
+      cbn [obind] in H. injection H as <-.
+      destruct (handle_cmd_ext _ _ _ _ E) as (D & e & [(L & _) _] & F & _).
+      eapply hov_quiet; eauto; try apply J. intros w0. apply hover_log_focus. exact F.
+  Qed.
+
+  Lemma hov_run fuel l : forall s s',
+    hov_inv s -> Forall hov_good l -> run oracle capturer fuel s l = Some s' -> hov_inv s'.
+  Proof.
+    induction l as [|i l IH]; intros s s' J F H; cbn [run] in H.
+    - injection H as <-. exact J.
+    - destruct (step oracle capturer fuel s i) as [s1|] eqn:E; [|discriminate]. cbn [obind] in H.
+      inversion F; subst. pose proof (hov_step _ _ _ _ J H2 E) as J1.
+      destruct (negb (is_tick i) && f_quit (co s1)); [injection H as <-; exact J1|eauto].
+  Qed.
+End Hover.
+
+(* ---------------------------------------------------------------- packaged statements *)
+
+Lemma routedI_length_b ev (Hev : is_focus_ev ev = false) seq D b :
+  routedI (seq_calls ev seq) D b -> routed_b (S (length D)) ev seq D = true.
+Proof. intros H. eapply routedI_routed_b; eauto. Qed.
+
+Lemma key_route_order_b fuel s ev s' :
+  is_focus_ev ev = false ->
+  focus_handle oracle capturer fuel s ev = Some s' ->
+  exists D tgt,
+    log (co s') = log (co s) ++ D /\ same_outer s s' /\ f_consume (co s') = false /\
+    routed_b (S (length D)) ev (route_seq capturer (path s) tgt) D = true /\
+    (existsb focus_entry D = false -> tgt = focused (co s)).
+Proof.
+  intros Hev H. destruct (key_route_order _ _ _ _ H) as (D & e & tgt & b & (L & _) & C & O & _ & RI & T).
+  exists D, tgt. repeat split; auto; try apply O. eapply routedI_length_b; eauto.
+Qed.
+
+Lemma mouse_route_order_b fuel s c r s' :
+  mouse_handle oracle capturer fuel s c r = Some s' ->
+  exists Dh Dr,
+    log (co s') = log (co s) ++ Dh ++ Dr /\
+    seg (hover_calls (last_hits s) (hits_at (last_frame s) (c, r))) Dh /\
+    last_hits s' = hits_at (last_frame s) (c, r) /\
+    match map h_wid (hits_at (last_frame s) (c, r)) with
+    | [] => Dr = []
+    | ws => routed_b (S (length Dr)) (EMouse c r) (route_seq capturer ws (last ws 0)) Dr = true
+    end.
+Proof.
+  intros H. destruct (mouse_route_order _ _ _ _ _ H) as (Dh & Dr & e & b & (L & _) & _ & S & Lh & _ & _ & _ & _ & M).
+  exists Dh, Dr. repeat split; auto.
+  destruct (map h_wid (hits_at (last_frame s) (c, r))); [exact M|].
+  destruct M as [RI _]. eapply routedI_length_b; eauto.
+Qed.
+
+(* one focus change whose two handlers do not themselves move the focus *)
+Lemma focus_widget_exact fuel c w c' :
+  focus_widget fuel c w = Some c' ->
+  if focused c =? w then c' = c
+  else
+    let r1 := oracle (log c) (focused c) EFocusOut Target in
+    forall r2, r2 = oracle (log c ++ [(focused c, EFocusOut, Target, r1)]) w EFocusIn Target ->
+    existsb is_focus_cmd (leaves r1) = false -> existsb is_focus_cmd (leaves r2) = false ->
+    log c' = log c ++ [(focused c, EFocusOut, Target, r1); (w, EFocusIn, Target, r2)] /\ focused c' = w.
+Proof.
+  unfold Route.focus_widget. destruct (focused c =? w); [intros H; injection H as <-; reflexivity|].
+  intros H. destruct (call fuel c (focused c) EFocusOut Target) as [c1|] eqn:E1; [|discriminate].
+  cbn [obind] in H. cbv zeta. intros r2 Er2 N1 N2.
+  unfold Route.call in E1, H.
+  destruct (no_focus_cmd_same _ _ _ _ E1 N1) as [L1 F1]. cbn [add_log log focused] in L1, F1.
+  assert (E2 : r2 = oracle (log (set_focused c1 w)) w EFocusIn Target).
+  { rewrite Er2. cbn [set_focused log]. rewrite L1. reflexivity. }
+  rewrite E2 in N2.
+  destruct (no_focus_cmd_same _ _ _ _ H N2) as [L2 F2]. cbn [add_log log focused set_focused] in L2, F2.
+  split; [|exact F2]. rewrite L2, E2. cbn [set_focused log]. rewrite L1, <- app_assoc. reflexivity.
+Qed.
+
+Lemma init_hov_inv excl r : hov_inv excl r (init_st r).
+Proof.
+  unfold hov_inv, init_st. cbn. split; [reflexivity|]. split; [repeat constructor; auto|]. split; [constructor|].
+  intros; reflexivity.
+Qed.
+
+(* hover_balanced for App.Run histories *)
+Lemma hover_balanced_run fuel r l s' :
+  Forall (fun i => match tree_of_input i with Some t => NoDup (ids t) | None => True end) l ->
+  Forall (fun i => match i with IEv e => is_hover_ev e = false | _ => True end) l ->
+  run oracle capturer fuel (init_st r) l = Some s' ->
+  forall w, w <> r \/ ~ In ITermFocusIn l ->
+    hover_state false (hover_log w (log (co s'))) = Some (wmem w (last_hits s')).
+Proof.
+  intros Ft Fe H w Hw.
+  pose (excl := fun x : wid => x = r /\ In ITermFocusIn l).
+  assert (J : hov_inv excl r s').
+  { eapply hov_run; [apply init_hov_inv| |exact H].
+    rewrite Forall_forall in *. intros i Hi. split; [apply Ft; exact Hi|].
+    specialize (Fe i Hi). destruct i; auto. split; [reflexivity|exact Hi]. }
+  destruct J as (_ & _ & _ & Hv). apply Hv. unfold excl. tauto.
+Qed.
+
+Lemma termfocusout_clears fuel s s' :
+  step oracle capturer fuel s ITermFocusOut = Some s' -> last_hits s' = [] /\ mouse s' = None.
+Proof.
+  cbn [step]. intros H. destruct (mouse_exit_spec _ _ _ H) as (D & _ & _ & Lh & _ & _ & M). auto.
+Qed.
+
+Lemma pointer_outside_clears fuel s c r s' :
+  contains 0 0 (last_frame s) c r = false ->
+  mouse_handle oracle capturer fuel s c r = Some s' -> last_hits s' = [].
+Proof.
+  intros Hc H. destruct (mouse_route_order _ _ _ _ _ H) as (_ & _ & _ & _ & _ & _ & _ & Lh & _).
+  rewrite Lh. unfold hits_at. cbn [fst snd]. now rewrite Hc.
+Qed.
+
+Lemma wmem_nil w : wmem w [] = false.
+Proof. reflexivity. Qed.
+
+(* ---------------------------------------------------------------- who is under the pointer *)
+
+Definition cont (c r ox oy : Z) (k : Z * Z * Z * tree) : bool :=
+  contains_abs (ox + k_col k) (oy + k_row k) (k_tree k) c r.
+
+Lemma under_all_unfold w x y kids ox oy c r :
+  under_all (Node w x y kids) ox oy c r =
+  w :: flat_map (fun k => if cont c r ox oy k then under_all (k_tree k) (ox + k_col k) (oy + k_row k) c r else []) kids.
+Proof. reflexivity. Qed.
+
+Lemma under_top_unfold w x y kids ox oy c r :
+  under_top (Node w x y kids) ox oy c r =
+  w :: fold_left (fun acc k => if cont c r ox oy k then under_top (k_tree k) (ox + k_col k) (oy + k_row k) c r else acc) kids [].
+Proof.
+  reflexivity.
+Qed.
+
+Lemma hit_test_unfold w x y kids lc lr :
+  map h_wid (hit_test (Node w x y kids) lc lr) =
+  w :: flat_map (fun k => if contains (k_col k) (k_row k) (k_tree k) lc lr
+                          then map h_wid (hit_test (k_tree k) (local lc (k_col k)) (local lr (k_row k))) else []) kids.
+Proof.
+  cbn [hit_test map h_wid snd]. f_equal. induction kids as [|k kids IH]; [reflexivity|].
+  cbn [flat_map]. rewrite map_app, IH. destruct (contains _ _ _ _ _); reflexivity.
+Qed.
+
+(* sizes are uint16 values *)
+Inductive wf16 : tree -> Prop :=
+| wf16_node w x y kids : 0 <= x <= 65535 -> 0 <= y <= 65535 ->
+    Forall (fun k => wf16 (k_tree k)) kids -> wf16 (Node w x y kids).
+
+Lemma local_exact x o wdt : 0 <= x < 65536 -> 0 <= wdt <= 65535 -> o <= x < o + wdt -> local x o = x - o.
+Proof.
+  intros Hx Hw Hc. unfold local, u16. rewrite Zminus_mod_idemp_r. apply Z.mod_small. lia.
+Qed.
+
+Lemma contains_shift oc orow t lc lr ox oy c r :
+  lc = c - ox -> lr = r - oy ->
+  contains oc orow t lc lr = contains_abs (ox + oc) (oy + orow) t c r.
+Proof.
+  intros -> ->. unfold contains, contains_abs.
+  repeat match goal with |- context [?a <=? ?b] => destruct (Z.leb_spec a b) end;
+  repeat match goal with |- context [?a <? ?b] => destruct (Z.ltb_spec a b) end; try reflexivity; lia.
+Qed.
+
+Lemma contains_true oc orow t lc lr :
+  contains oc orow t lc lr = true -> oc <= lc < oc + t_width t /\ orow <= lr < orow + t_height t.
+Proof. unfold contains. rewrite !andb_true_iff, !Z.leb_le, !Z.ltb_lt. lia. Qed.
+
+(* hitTest's translation to local uint16 coordinates is exact: the hit list is the list of
+   surfaces that contain the point in absolute terminal coordinates *)
+Lemma hit_test_abs c r : forall t, wf16 t -> forall ox oy lc lr,
+  lc = c - ox -> lr = r - oy -> 0 <= lc < 65536 -> 0 <= lr < 65536 ->
+  map h_wid (hit_test t lc lr) = under_all t ox oy c r.
+Proof.
+  induction t as [w x y kids IH] using tree_ind'. intros W ox oy lc lr Elc Elr Hlc Hlr.
+  rewrite hit_test_unfold, under_all_unfold. f_equal.
+  inversion W as [? ? ? ? _ _ Wk]; subst. clear W.
+  induction IH as [|k kids Hk _ IHk]; [reflexivity|].
+  inversion Wk as [|? ? Wk0 Wk']; subst.
+  cbn [flat_map]. rewrite (IHk Wk'). f_equal.
+  unfold cont. rewrite <- (contains_shift (k_col k) (k_row k) (k_tree k) (c - ox) (r - oy) ox oy c r eq_refl eq_refl).
+  destruct (contains (k_col k) (k_row k) (k_tree k) (c - ox) (r - oy)) eqn:E; [|reflexivity].
+  apply contains_true in E as [Ec Er].
+  remember (k_tree k) as kt eqn:Et. destruct kt as [w' x' y' kids'].
+  inversion Wk0 as [? ? ? ? Hx' Hy' _]; subst. cbn [t_width t_height] in Ec, Er.
+  rewrite (local_exact (c - ox) (k_col k) x') by lia. rewrite (local_exact (r - oy) (k_row k) y') by lia.
+  apply Hk; [exact Wk0|lia|lia|lia|lia].
+Qed.
+
+Lemma hits_at_pointer_all t c r :
+  wf16 t -> map h_wid (hits_at t (c, r)) = pointer_all t c r.
+Proof.
+  intros W. unfold hits_at, pointer_all. cbn [fst snd].
+  rewrite (contains_shift 0 0 t c r 0 0 c r) by lia. cbn [Z.add].
+  destruct (contains_abs 0 0 t c r) eqn:E; [|reflexivity].
+  unfold contains_abs in E. rewrite !andb_true_iff, !Z.leb_le, !Z.ltb_lt in E.
+  inversion W; subst. cbn [t_width t_height] in E.
+  apply hit_test_abs; [exact W| | | |]; unfold u16; rewrite ?Z.mod_small by lia; lia.
+Qed.
+
+(* the chain that descends into the LAST child containing the point *)
+Inductive top_chain (c r : Z) : tree -> Z -> Z -> list wid -> Prop :=
+| tc_leaf t ox oy :
+    Forall (fun k => cont c r ox oy k = false) (t_kids t) -> top_chain c r t ox oy [t_wid t]
+| tc_kid w x y pre k post ox oy l :
+    cont c r ox oy k = true -> Forall (fun k' => cont c r ox oy k' = false) post ->
+    top_chain c r (k_tree k) (ox + k_col k) (oy + k_row k) l ->
+    top_chain c r (Node w x y (pre ++ k :: post)) ox oy (w :: l).
+
+Lemma split_last {A} (P : A -> bool) (l : list A) :
+  Forall (fun x => P x = false) l \/
+  exists pre k post, l = pre ++ k :: post /\ P k = true /\ Forall (fun x => P x = false) post.
+Proof.
+  induction l as [|a l IH]; [left; constructor|].
+  destruct IH as [F|(pre & k & post & -> & Pk & F)].
+  - destruct (P a) eqn:Pa; [right; exists [], a, l; auto|left; constructor; auto].
+  - right. exists (a :: pre), k, post. auto.
+Qed.
+
+Lemma fold_none {A B} (P : A -> bool) (f : A -> B) (l : list A) acc :
+  Forall (fun x => P x = false) l -> fold_left (fun acc k => if P k then f k else acc) l acc = acc.
+Proof. intros F. revert acc. induction F as [|a l Ha _ IH]; intros acc; [reflexivity|]. cbn. rewrite Ha. apply IH. Qed.
+
+Lemma fold_some {A B} (P : A -> bool) (f : A -> B) pre k post acc :
+  P k = true -> Forall (fun x => P x = false) post ->
+  fold_left (fun acc k => if P k then f k else acc) (pre ++ k :: post) acc = f k.
+Proof. intros Pk F. rewrite fold_left_app. cbn [fold_left]. rewrite Pk. apply fold_none. exact F. Qed.
+
+Lemma under_top_chain c r : forall t ox oy, top_chain c r t ox oy (under_top t ox oy c r).
+Proof.
+  induction t as [w x y kids IH] using tree_ind'. intros ox oy. rewrite under_top_unfold.
+  destruct (split_last (cont c r ox oy) kids) as [F|(pre & k & post & -> & Pk & F)].
+  - rewrite fold_none by exact F. apply (tc_leaf c r (Node w x y kids)). exact F.
+  - rewrite (fold_some (cont c r ox oy) (fun k => under_top (k_tree k) (ox + k_col k) (oy + k_row k) c r)) by assumption.
+    apply tc_kid; auto. rewrite Forall_forall in IH. apply IH. apply in_or_app. right. left. reflexivity.
+Qed.
+
+Lemma under_all_nonempty t ox oy c r : under_all t ox oy c r <> [].
+Proof. destruct t. rewrite under_all_unfold. discriminate. Qed.
+
+Lemma flat_none {A B} (P : A -> bool) (f : A -> list B) l :
+  Forall (fun x => P x = false) l -> flat_map (fun k => if P k then f k else []) l = [].
+Proof. induction 1 as [|a l Ha _ IH]; [reflexivity|]. cbn. now rewrite Ha, IH. Qed.
+
+Lemma last_app_ne {A} (a b : list A) d : b <> [] -> last (a ++ b) d = last b d.
+Proof.
+  intros Hb. induction a as [|x a IH]; [reflexivity|]. cbn [app].
+  destruct (a ++ b) eqn:E; [destruct a; cbn in E; [contradiction|discriminate]|].
+  cbn [last]. exact IH.
+Qed.
+
+(* overlapping siblings: the target (last element of the hit list) is the last element of
+   the chain through the last containing children *)
+Lemma under_all_last c r : forall t ox oy d,
+  last (under_all t ox oy c r) d = last (under_top t ox oy c r) d.
+Proof.
+  induction t as [w x y kids IH] using tree_ind'. intros ox oy d.
+  rewrite under_all_unfold, under_top_unfold.
+  destruct (split_last (cont c r ox oy) kids) as [F|(pre & k & post & -> & Pk & F)].
+  - rewrite fold_none by exact F.
+    rewrite (flat_none (cont c r ox oy) (fun k => under_all (k_tree k) (ox + k_col k) (oy + k_row k) c r)) by exact F.
+    reflexivity.
+  - rewrite (fold_some (cont c r ox oy) (fun k => under_top (k_tree k) (ox + k_col k) (oy + k_row k) c r)) by assumption.
+    rewrite flat_map_app. cbn [flat_map]. rewrite Pk.
+    rewrite (flat_none (cont c r ox oy) (fun k => under_all (k_tree k) (ox + k_col k) (oy + k_row k) c r) post) by exact F.
+    rewrite app_nil_r.
+    assert (Hk : forall d, last (under_all (k_tree k) (ox + k_col k) (oy + k_row k) c r) d =
+                           last (under_top (k_tree k) (ox + k_col k) (oy + k_row k) c r) d).
+    { rewrite Forall_forall in IH. intros d'. apply IH. apply in_or_app. right. left. reflexivity. }
+    pose proof (under_all_nonempty (k_tree k) (ox + k_col k) (oy + k_row k) c r) as Ne.
+    assert (Nt : under_top (k_tree k) (ox + k_col k) (oy + k_row k) c r <> []).
+    { destruct (k_tree k). rewrite under_top_unfold. discriminate. }
+    change (w :: ?a ++ ?b) with ((w :: a) ++ b).
+    rewrite last_app_ne by exact Ne.
+    destruct (under_top (k_tree k) (ox + k_col k) (oy + k_row k) c r) as [|a l] eqn:Et; [contradiction|].
+    rewrite Hk. cbn [last]. reflexivity.
+Qed.
+
+(* the chain is always part of the hit list, and it is the whole hit list exactly when no two
+   siblings contain the point *)
+Lemma under_top_sub c r : forall t ox oy, sub (under_top t ox oy c r) (under_all t ox oy c r).
+Proof.
+  induction t as [w x y kids IH] using tree_ind'. intros ox oy.
+  rewrite under_all_unfold, under_top_unfold. apply sub_keep.
+  destruct (split_last (cont c r ox oy) kids) as [F|(pre & k & post & -> & Pk & F)].
+  - rewrite fold_none by exact F. apply sub_nil_l.
+  - rewrite (fold_some (cont c r ox oy) (fun k => under_top (k_tree k) (ox + k_col k) (oy + k_row k) c r)) by assumption.
+    rewrite flat_map_app. cbn [flat_map]. rewrite Pk.
+    apply (sub_app [] _ _ _ (sub_nil_l _)).
+    rewrite <- (app_nil_r (under_top _ _ _ _ _)). apply sub_app; [|apply sub_nil_l].
+    rewrite Forall_forall in IH. apply IH. apply in_or_app. right. left. reflexivity.
+Qed.
+
+Lemma sub_length {A} (a b : list A) : sub a b -> (length a <= length b)%nat.
+Proof. induction 1; cbn; lia. Qed.
+
+Lemma sub_same_length {A} (a b : list A) : sub a b -> length a = length b -> a = b.
+Proof.
+  induction 1 as [|x a b H IH|x a b H IH]; intros E; [reflexivity| |].
+  - apply sub_length in H. cbn in E. lia.
+  - cbn in E. f_equal. apply IH. lia.
+Qed.
+
+Lemma pointer_single t c r :
+  length (pointer_all t c r) = length (pointer_chain t c r) -> pointer_all t c r = pointer_chain t c r.
+Proof.
+  unfold pointer_all, pointer_chain. destruct (contains_abs 0 0 t c r); [|reflexivity].
+  intros E. symmetry. apply sub_same_length; [apply under_top_sub|symmetry; exact E].
+Qed.
+
+(* ---------------------------------------------------------------- z order after a render *)
+
+Definition le_z (a b : Z * Z * Z * tree) : Prop := k_z a <= k_z b.
+
+Inductive sorted_tree : tree -> Prop :=
+| st_node w x y kids : StronglySorted le_z kids -> Forall (fun k => sorted_tree (k_tree k)) kids ->
+    sorted_tree (Node w x y kids).
+
+Lemma insert_z_sorted k l : StronglySorted le_z l -> StronglySorted le_z (insert_z k l).
+Proof.
+  induction 1 as [|a l S IH F]; cbn [insert_z]; [repeat constructor|].
+  destruct (k_z k <? k_z a) eqn:E.
+  - constructor; [constructor; assumption|]. apply Z.ltb_lt in E.
+    constructor; [unfold le_z; lia|]. eapply Forall_impl; [|exact F]. unfold le_z. intros; lia.
+  - constructor; [exact IH|]. apply Z.ltb_ge in E.
+    eapply Permutation_Forall; [apply Permutation_sym, insert_z_perm|]. constructor; [exact E|exact F].
+Qed.
+
+Lemma sort_tree_sorted t : sorted_tree (sort_tree t).
+Proof.
+  induction t as [w x y kids IH] using tree_ind'. cbn [sort_tree].
+  match goal with |- sorted_tree (Node w x y (?G kids [])) =>
+    assert (E : forall acc, StronglySorted le_z acc -> Forall (fun k => sorted_tree (k_tree k)) acc ->
+                            StronglySorted le_z (G kids acc) /\ Forall (fun k => sorted_tree (k_tree k)) (G kids acc)) end.
+  { induction IH as [|k kids Hk _ IHk]; intros acc S F; [auto|].
+    apply IHk; [apply insert_z_sorted; exact S|].
+    eapply Permutation_Forall; [apply Permutation_sym, insert_z_perm|]. constructor; [exact Hk|exact F]. }
+  destruct (E [] (SSorted_nil _) (Forall_nil _)) as [S F]. constructor; assumption.
+Qed.
+
+Lemma sorted_before_last {A} (R : A -> A -> Prop) pre k post :
+  StronglySorted R (pre ++ k :: post) -> Forall (fun a => R a k) pre.
+Proof.
+  induction pre as [|a pre IH]; cbn [app]; intros S; [constructor|].
+  inversion S as [|? ? S' F]; subst. constructor; [|apply IH; exact S'].
+  rewrite Forall_forall in F. apply F. apply in_or_app. right. left. reflexivity.
+Qed.
+
+(* after a render: at each level the chain descends into the containing child with the
+   highest z (the last of those with equal z) *)
+Inductive top_chain_z (c r : Z) : tree -> Z -> Z -> list wid -> Prop :=
+| tcz_leaf t ox oy :
+    Forall (fun k => cont c r ox oy k = false) (t_kids t) -> top_chain_z c r t ox oy [t_wid t]
+| tcz_kid w x y pre k post ox oy l :
+    cont c r ox oy k = true -> Forall (fun k' => cont c r ox oy k' = false) post ->
+    Forall (fun k' => k_z k' <= k_z k) pre ->
+    top_chain_z c r (k_tree k) (ox + k_col k) (oy + k_row k) l ->
+    top_chain_z c r (Node w x y (pre ++ k :: post)) ox oy (w :: l).
+
+Lemma top_chain_sorted c r t ox oy l :
+  top_chain c r t ox oy l -> sorted_tree t -> top_chain_z c r t ox oy l.
+Proof.
+  induction 1 as [t ox oy F|w x y pre k post ox oy l Pk F _ IH]; intros S.
+  - apply tcz_leaf. exact F.
+  - inversion S as [? ? ? ? SS FS]; subst. apply tcz_kid; auto.
+    + apply (sorted_before_last le_z _ _ _ SS).
+    + apply IH. rewrite Forall_forall in FS. apply FS. apply in_or_app. right. left. reflexivity.
+Qed.
+
+End Oracle.
+
+(* ================================================================ fuel: finite scripts terminate *)
+
+Lemma tail_cost_beyond script k : (length script <= k)%nat -> tail_cost script k = O.
+Proof. intros H. unfold tail_cost. rewrite skipn_all2 by exact H. reflexivity. Qed.
+
+Lemma tail_cost_step script : forall k, (k < length script)%nat ->
+  tail_cost script k = (S (cdepth (nth k script CNone)) + tail_cost script (S k))%nat.
+Proof.
+  unfold tail_cost. induction script as [|x script IH]; intros k H; [cbn in H; lia|].
+  destruct k; [reflexivity|]. cbn [skipn nth]. apply IH. cbn in H. lia.
+Qed.
+
+Lemma tail_cost_mono script : forall k k', (k <= k')%nat -> (tail_cost script k' <= tail_cost script k)%nat.
+Proof.
+  intros k k' H. induction H as [|k' H IH]; [lia|].
+  destruct (Nat.lt_ge_cases k' (length script)) as [L|L].
+  - rewrite (tail_cost_step script k' L) in IH. lia.
+  - rewrite (tail_cost_beyond script (S k')) by lia. lia.
+Qed.
+
+Lemma nth_beyond script k : (length script <= k)%nat -> nth k script CNone = CNone.
+Proof. intros H. apply nth_overflow. exact H. Qed.
+
+Lemma handle_cmd_log_mono oracle fuel s c s' :
+  handle_cmd oracle fuel s c = Some s' -> (length (log s) <= length (log s'))%nat.
+Proof. intros H. apply (handle_cmd_focused_same oracle _ _ _ _ H). Qed.
+
+(* with a finite script the recursion of handleCommand/focusWidget ends: this fuel is enough *)
+Lemma handle_cmd_total script : forall fuel s c,
+  (cdepth c + tail_cost script (length (log s)) + 1 <= fuel)%nat ->
+  exists s', handle_cmd (script_oracle script) fuel s c = Some s'.
+Proof.
+  induction fuel as [|f IH]; intros s c H; [lia|].
+  assert (Hcall : forall s0 w ev ph, (tail_cost script (length (log s0)) + 1 <= f)%nat ->
+             exists s', call (script_oracle script) f s0 w ev ph = Some s').
+  { intros s0 w ev ph H0. unfold call, script_oracle. apply IH.
+    cbn [add_log log]. rewrite app_length. cbn [length].
+    replace (length (log s0) + 1)%nat with (S (length (log s0))) by lia.
+    destruct (Nat.lt_ge_cases (length (log s0)) (length script)) as [L|L].
+    - rewrite (tail_cost_step script _ L) in H0. lia.
+    - rewrite (nth_beyond script _ L). rewrite (tail_cost_beyond script (S (length (log s0)))) by lia. cbn. lia. }
+  destruct c; cbn [handle_cmd]; eauto.
+  - (* focus *)
+    cbn [cdepth] in H. cbn [add_eff focused log].
+    destruct (focused s =? w); [eauto|].
+    destruct (Hcall (add_eff s (CFocus w)) (focused s) EFocusOut Target) as [s1 E1]; [cbn [add_eff log]; lia|].
+    unfold call in E1. cbn [add_eff log focused] in E1. rewrite E1.
+    assert (L1 : (length (log s) <= length (log s1))%nat).
+    { apply handle_cmd_log_mono in E1. cbn [add_log log] in E1. rewrite app_length in E1. cbn in E1. lia. }
+    destruct (Hcall (set_focused s1 w) w EFocusIn Target) as [s2 E2].
+    { cbn [set_focused log]. pose proof (tail_cost_mono script _ _ L1). lia. }
+    unfold call in E2. eauto.
+  - (* batch *)
+    cbn [cdepth] in H. revert s H. induction l as [|x l IHl]; intros s H; [eauto|].
+    cbn [fold_right] in H.
+    destruct (IH s x) as [s1 E1]; [lia|]. rewrite E1.
+    apply IHl. apply handle_cmd_log_mono in E1. pose proof (tail_cost_mono script _ _ E1). lia.
+Qed.
+
+Section Total.
+  Variable script : list cmd.
+  Variable capt : wid -> bool.
+  Variable fuel : nat.
+  Hypothesis Hfuel : (tail_cost script 0 + 1 <= fuel)%nat.
+  Let Orc := script_oracle script.
+
+  Lemma call_total s w ev ph : exists s', call Orc fuel s w ev ph = Some s'.
+  Proof.
+    unfold call, Orc, script_oracle. apply handle_cmd_total.
+    cbn [add_log log]. rewrite app_length. cbn [length].
+    replace (length (log s) + 1)%nat with (S (length (log s))) by lia.
+    pose proof (tail_cost_mono script 0 (length (log s)) (Nat.le_0_l _)) as M.
+    destruct (Nat.lt_ge_cases (length (log s)) (length script)) as [L|L].
+    - rewrite (tail_cost_step script _ L) in M. lia.
+    - rewrite (nth_beyond script _ L). rewrite (tail_cost_beyond script (S (length (log s)))) by lia. cbn. lia.
+  Qed.
+
+  Lemma calls_total l : forall s, exists s', calls Orc fuel s l = Some s'.
+  Proof.
+    induction l as [|[[w ev] ph] l IH]; intros s; cbn [calls]; [eauto|].
+    destruct (call_total s w ev ph) as [s1 ->]. cbn [obind]. apply IH.
+  Qed.
+
+  Lemma route_total l : forall s, exists r, route Orc fuel s l = Some r.
+  Proof.
+    induction l as [|[[w ev] ph] l IH]; intros s; cbn [route]; [eauto|].
+    destruct (call_total s w ev ph) as [s1 ->]. cbn [obind]. destruct (f_consume s1); [eauto|apply IH].
+  Qed.
+
+  Lemma focus_widget_total s w : exists s', focus_widget Orc fuel s w = Some s'.
+  Proof.
+    unfold focus_widget. destruct (focused s =? w); [eauto|].
+    destruct (call_total s (focused s) EFocusOut Target) as [s1 ->]. cbn [obind]. apply call_total.
+  Qed.
+
+  Lemma focus_handle_total s ev : exists s', focus_handle Orc capt fuel s ev = Some s'.
+  Proof.
+    unfold focus_handle.
+    destruct (route_total (capture_calls capt ev (path s)) (set_consume (co s) false)) as [[c1 b1] ->].
+    cbn [obind fst snd]. destruct b1; [eauto|].
+    destruct (route_total [(focused c1, ev, Target)] c1) as [[c2 b2] ->].
+    cbn [obind fst snd]. destruct b2; [eauto|].
+    destruct (route_total (bubble_calls ev (path s)) c2) as [[c3 b3] ->]. cbn [obind fst snd]. eauto.
+  Qed.
+
+  Lemma mouse_update_total s t : exists s', mouse_update Orc fuel s t = Some s'.
+  Proof.
+    unfold mouse_update. destruct (mouse s); [|eauto].
+    match goal with |- context [calls Orc fuel ?c ?l] => destruct (calls_total l c) as [c' ->] end.
+    cbn [obind]. eauto.
+  Qed.
+
+  Lemma mouse_exit_total s : exists s', mouse_exit Orc fuel s = Some s'.
+  Proof.
+    unfold mouse_exit.
+    match goal with |- context [calls Orc fuel ?c ?l] => destruct (calls_total l c) as [c' ->] end.
+    cbn [obind]. eauto.
+  Qed.
+
+  Lemma mouse_handle_total s c r : exists s', mouse_handle Orc capt fuel s c r = Some s'.
+  Proof.
+    unfold mouse_handle.
+    destruct (mouse_update_total (with_mouse s (Some (c, r))) (last_frame s)) as [s1 ->]. cbn [obind].
+    destruct (last_hits s1) as [|h0 hs]; [eauto|].
+    match goal with |- context [route Orc fuel ?c0 ?l] => destruct (route_total l c0) as [[c1 b1] ->] end.
+    cbn [obind fst snd]. destruct b1; [eauto|].
+    match goal with |- context [route Orc fuel ?c0 ?l] => destruct (route_total l c0) as [[c2 b2] ->] end.
+    cbn [obind fst snd]. destruct b2; [eauto|].
+    match goal with |- context [route Orc fuel ?c0 ?l] => destruct (route_total l c0) as [[c3 b3] ->] end.
+    cbn [obind fst snd]. eauto.
+  Qed.
+
+  Lemma update_path_total s t : exists s', update_path Orc fuel s t = Some s'.
+  Proof.
+    unfold update_path. destruct (child_has_focus t (focused (co s))); [eauto|].
+    destruct (focus_widget_total (co s) (root s)) as [c ->]. cbn [obind]. eauto.
+  Qed.
+
+  Lemma frame_total s t : exists s', frame Orc fuel s t = Some s'.
+  Proof.
+    unfold frame. destruct (negb (f_redraw (co s))); [eauto|].
+    destruct (mouse_update_total (with_co s (set_redraw (co s) false)) t) as [s1 ->]. cbn [obind].
+    match goal with |- context [update_path Orc fuel ?s2 ?t2] => destruct (update_path_total s2 t2) as [s3 ->] end.
+    cbn [obind]. eauto.
+  Qed.
+
+  Lemma step_total s i : (input_depth i + tail_cost script 0 + 1 <= fuel)%nat -> exists s', step Orc capt fuel s i = Some s'.
+  Proof.
+    intros Hi. destruct i; cbn [step].
+    - apply focus_handle_total.
+    - apply mouse_handle_total.
+    - destruct (call_total (co s) (root s) EEnter Target) as [c ->]. cbn [obind]. eauto.
+    - apply mouse_exit_total.
+    - eauto.
+    - apply frame_total.
+    - destruct (focus_handle_total s EInit) as [s1 ->]. cbn [obind]. eauto.
+    - apply mouse_update_total.
+    - apply update_path_total.
+    - eauto.
+    - destruct (update_path_total s (sort_tree t)) as [s1 ->]. cbn [obind]. eauto.
+    - apply mouse_exit_total.
+    - eauto.
+    - destruct (focus_widget_total (co s) w) as [c ->]. cbn [obind]. eauto.
+    - cbn [input_depth] in Hi.
+      destruct (handle_cmd_total script fuel (co s) c) as [c' E].
+      { pose proof (tail_cost_mono script 0 (length (log (co s))) (Nat.le_0_l _)). lia. }
+      fold Orc in E. rewrite E. cbn [obind]. eauto.
+  Qed.
+
+  Lemma run_total l : forall s,
+    Forall (fun i => (input_depth i + tail_cost script 0 + 1 <= fuel)%nat) l ->
+    exists s', run Orc capt fuel s l = Some s'.
+  Proof.
+    induction l as [|i l IH]; intros s F; cbn [run]; [eauto|].
+    inversion F; subst. destruct (step_total s i) as [s1 ->]; [assumption|]. cbn [obind].
+    destruct (negb (is_tick i) && f_quit (co s1)); [eauto|apply IH; assumption].
+  Qed.
+End Total.
+
+(* the fuel the model is run with is enough: the out-of-fuel value is never produced *)
+Lemma model_fuel_run script capt l s :
+  Forall (fun i => input_depth i = O) l ->
+  exists s', run (script_oracle script) capt (model_fuel script) s l = Some s'.
+Proof.
+  intros F. apply run_total; [unfold model_fuel; lia|].
+  eapply Forall_impl; [|exact F]. intros i ->. unfold model_fuel. lia.
+Qed.
+
+Lemma model_fuel_step script capt i s :
+  exists s', step (script_oracle script) capt (model_fuel script + input_depth i) s i = Some s'.
+Proof. apply step_total; unfold model_fuel; lia. Qed.
